@@ -6565,9 +6565,11 @@ ZSTD_validateSequence(U32 offCode, U32 matchLength, U32 minMatch,
      * larger than the total length of output decoded in order to reference the dict, even larger than
      * window size. After output surpasses windowSize, we're limited to windowSize offsets again.
      */
-    size_t const offsetBound = posInSrc > windowSize ? (size_t)windowSize : posInSrc + (size_t)dictSize;
+    /* posInSrc is the position after the match : an offset can only reach what precedes the start of the match */
+    size_t const history = (posInSrc - matchLength) + (size_t)dictSize;
+    size_t const offsetBound = posInSrc > windowSize ? MIN((size_t)windowSize, history) : history;
     size_t const matchLenLowerBound = (minMatch == 3 || useSequenceProducer) ? 3 : 4;
-    RETURN_ERROR_IF(offCode > OFFSET_TO_OFFBASE(offsetBound), externalSequences_invalid, "Offset too large!");
+    RETURN_ERROR_IF(offCode > offsetBound + ZSTD_REP_NUM, externalSequences_invalid, "Offset too large!");
     /* Validate maxNbSeq is large enough for the given matchLength and minMatch */
     RETURN_ERROR_IF(matchLength < matchLenLowerBound, externalSequences_invalid, "Matchlength too small for the minMatch");
     return 0;
@@ -6630,7 +6632,9 @@ ZSTD_copySequencesToSeqStoreExplicitBlockDelim(ZSTD_CCtx* cctx,
         DEBUGLOG(6, "Storing sequence: (of: %u, ml: %u, ll: %u)", offBase, matchLength, litLength);
         if (cctx->appliedParams.validateSequences) {
             seqPos->posInSrc += litLength + matchLength;
-            FORWARD_IF_ERROR(ZSTD_validateSequence(offBase, matchLength, cctx->appliedParams.cParams.minMatch, seqPos->posInSrc,
+            /* validate the raw offset : a repcode is only valid if the offset it stands for is reachable */
+            RETURN_ERROR_IF(inSeqs[idx].offset == 0, externalSequences_invalid, "Offset of a match cannot be 0");
+            FORWARD_IF_ERROR(ZSTD_validateSequence(OFFSET_TO_OFFBASE(inSeqs[idx].offset), matchLength, cctx->appliedParams.cParams.minMatch, seqPos->posInSrc,
                                                 cctx->appliedParams.cParams.windowLog, dictSize, ZSTD_hasExtSeqProd(&cctx->appliedParams)),
                                                 "Sequence validation failed");
         }
@@ -6768,7 +6772,9 @@ ZSTD_copySequencesToSeqStoreNoBlockDelim(ZSTD_CCtx* cctx, ZSTD_sequencePosition*
 
         if (cctx->appliedParams.validateSequences) {
             seqPos->posInSrc += litLength + matchLength;
-            FORWARD_IF_ERROR(ZSTD_validateSequence(offBase, matchLength, cctx->appliedParams.cParams.minMatch, seqPos->posInSrc,
+            /* validate the raw offset : a repcode is only valid if the offset it stands for is reachable */
+            RETURN_ERROR_IF(rawOffset == 0, externalSequences_invalid, "Offset of a match cannot be 0");
+            FORWARD_IF_ERROR(ZSTD_validateSequence(OFFSET_TO_OFFBASE(rawOffset), matchLength, cctx->appliedParams.cParams.minMatch, seqPos->posInSrc,
                                                    cctx->appliedParams.cParams.windowLog, dictSize, ZSTD_hasExtSeqProd(&cctx->appliedParams)),
                                                    "Sequence validation failed");
         }
